@@ -76,11 +76,12 @@ def div_unit(v, k):
 
 
 class U:
-    """unit value: unit name, kind ('epoch'|'span'|None), provenance text"""
-    __slots__ = ("unit", "kind", "why")
+    """unit value: unit name, kind ('epoch'|'span'|None), provenance text; trunc = result of a truncating integer
+    conversion (quotient whose remainder was discarded)"""
+    __slots__ = ("unit", "kind", "why", "trunc")
 
-    def __init__(self, unit, kind=None, why=""):
-        self.unit, self.kind, self.why = unit, kind, why
+    def __init__(self, unit, kind=None, why="", trunc=False):
+        self.unit, self.kind, self.why, self.trunc = unit, kind, why, trunc
 
     def __repr__(self):
         return "%s%s" % (self.unit, "@epoch" if self.kind == "epoch" else "")
@@ -95,6 +96,7 @@ def name_unit(name, ctx="var", ty=None):
     """seed from an identifier; returns U or None"""
     if not name:
         return None
+    name = re.sub(r"_(with|and)_provider.*$", "", name)
     toks = tokens_of(name)
     if not toks or "per" in toks:
         return None
@@ -346,8 +348,10 @@ class UnitChecker:
         r = self.ex(hir["value"], env)
         want = self.ret_units.get(f.path)
         if isinstance(r, U):
-            if want is None and self._ret_numeric(f.ret) and not any(t in ORDINAL_TOKENS for t in tokens_of(f.name)):
-                pass    # do not infer return units from bodies: names are the contract
+            if want is None and self._ret_numeric(f.ret) and not any(t in ORDINAL_TOKENS for t in tokens_of(f.name)) \
+                    and name_unit(f.name, "ret") is None:
+                # the name says nothing: take the unit the body computes
+                self.ret_units[f.path] = U(r.unit, r.kind, "result of %s (inferred from its body)" % f.name)
             elif want is not None:
                 self.same(want, r, hir["value"], "return value of `%s`" % f.name, "return")
         for i, u in self.inferred_params.items():
@@ -682,6 +686,11 @@ class UnitChecker:
             if isinstance(a, U) and isinstance(b, U):
                 if a.unit != b.unit and self.zero_ctx:
                     return None     # `a + b != 0`: a sum used only as an any-nonzero test
+                if op == "+" and a.unit == b.unit and a.trunc and b.trunc and not self.zero_ctx:
+                    self.flag("R4.sum-of-truncated-quotients", n,
+                              "the addends (%s) and (%s) were each converted to %s by an integer division that drops "
+                              "the remainder; the carries between them are lost - add in the finer unit first, then "
+                              "divide once" % (a.why, b.why, a.unit), "sum-trunc/" + a.unit)
                 self.same(a, b, n, "operands of `%s`" % op, "bin" + op)
                 if a.unit != b.unit:
                     return None
@@ -748,7 +757,8 @@ class UnitChecker:
             u = div_unit(a.unit, abs(k))
             if u is not None:
                 self.stats["conversions"] += 1
-                return U(u, a.kind, "%s / %d" % (a.why, k))
+                isint = (n.get("ty") or "") in INT_BITS
+                return U(u, a.kind, "%s / %d" % (a.why, k), trunc=isint)
             if abs(k) in ALL_FACTORS and abs(k) >= 7:
                 pairs = ", ".join("%s->%s" % (q, p) for p, q in ALL_FACTORS[abs(k)][:3])
                 self.flag("R4.wrong-factor", n, "a quantity in %s (%s) is divided by %d, which converts %s" %
@@ -825,6 +835,12 @@ class UnitChecker:
                 return self.rem(n, args[0], args[1], nodes[1], truncating=False)
             if name in REM_METHODS and len(args) == 2:
                 return self.rem(n, args[0], args[1], nodes[1], truncating=True)
+            if name in ("div_rem_euclid", "div_mod_floor", "div_rem") and len(args) == 2:
+                q = self.div(n, args[0], args[1], nodes[1], truncating=(name == "div_rem"))
+                if isinstance(q, U):
+                    q.trunc = False
+                r = self.rem(n, args[0], args[1], nodes[1], truncating=(name == "div_rem"))
+                return ("tuple", [q, r])
             if name in CMP_METHODS and len(args) == 2:
                 if isinstance(args[0], U) and isinstance(args[1], U):
                     self.same(args[0], args[1], n, "operands of `%s`" % name, "cmp")
@@ -954,6 +970,9 @@ def report(run, fx, prop):
                                  "unit of time (units inferred from the repository's names; unknown never alarms)")
     run.rule("R4.wrong-factor", "a quantity with a known unit is only multiplied/divided by a time-conversion constant "
                                 "that converts from/to that unit (e.g. minutes x 6e10, never minutes x 1e9)")
+    run.rule("R4.sum-of-truncated-quotients", "quantities are not converted to a coarser unit one by one with truncating "
+                                              "division and then summed (lost carries); the sum is formed in the finer "
+                                              "unit and divided once")
     run.rule("R5.truncating-epoch-division", "no truncating `/` or `%` is applied to a signed epoch-kind quantity; "
                                              "div_euclid/rem_euclid are the accepted idiom (durations are exempt)")
     nfn = 0
